@@ -230,8 +230,10 @@ func ruleSenderRetry(w *core.World, r *core.Report) {
 		lastFailed := false
 		for _, fct := range p.Conds {
 			cm, ok := core.FactCmp(fct)
-			if ok && core.IsNilConst(cm.Y) && p.Resolve(cm.X) == last && cm.Op == token.NEQ {
-				lastFailed = true
+			// the outcome of the last attempt is what the most recent test of the attempt's error says
+			// (an earlier iteration's failure followed by a successful retry is not a failure)
+			if ok && core.IsNilConst(cm.Y) && p.Resolve(cm.X) == last && (cm.Op == token.NEQ || cm.Op == token.EQL) {
+				lastFailed = cm.Op == token.NEQ
 			}
 		}
 		if lastFailed {
@@ -335,9 +337,18 @@ func rulePerNodeOrder(w *core.World, r *core.Report) {
 	// doBatch: forward range for send and receive, reply stored at the same index
 	if f := fn(w, r, "(*pkg/redis/client/cluster.Batch).doBatch"); f != nil {
 		fwd := 0
+		isCmds := func(v ssa.Value) bool {
+			// the node's command list, or a helper's parameter that was handed it
+			for _, a := range argValues(v, f) {
+				if core.IsFieldLoad(core.Unwrap(a), "nodeBatch", "cmds") {
+					return true
+				}
+			}
+			return false
+		}
 		for _, g := range core.DeepFuncs(f) {
 			for _, in := range core.Instrs(g) {
-				if ia, ok := in.(*ssa.IndexAddr); ok && core.IsFieldLoad(ia.X, "nodeBatch", "cmds") {
+				if ia, ok := in.(*ssa.IndexAddr); ok && isCmds(ia.X) {
 					idx := ia.Index
 					if ld, isLd := idx.(*ssa.UnOp); isLd {
 						// captured loop variable
